@@ -671,7 +671,7 @@ def c13():
             seen.setdefault(tuple(rp["heads"]), rp)
         for heads, rp in seen.items():
             v.violation("data race between %s" % (" and ".join(heads) or "(unknown frames)"), {"report": rp["text"], "heads": list(heads)},
-                        {"kind": "race", "heads": list(heads),
+                        {"kind": "race", "heads": list(heads), "np_close": any("closeProvidersNP" in h for h in heads),
                          "debug_counters": all(any(k in h for k in ("CreateFreshChannel", "ProcessCount", "DeadProcessCount", "SpawnThenTransition", "terminate")) for h in heads)})
         for h in harness_induced[:2]:
             v.notes.append("race report without any frame of gertab/Grits (not judged): " + h)
